@@ -592,7 +592,11 @@ func (sp *ServerPool) buildResponse(spCtx *serverPoolContext) (err error) {
 	if maxBodySize == 0 {
 		maxBodySize = sp.proxy.spec.ServerMaxBodySize
 	}
-	if err = resp.FetchPayload(maxBodySize); err != nil {
+	if spCtx.stdReq.Method == http.MethodHead {
+		// the response to a HEAD request announces the length of the would-be
+		// body but has none, there is nothing to fetch.
+		resp.SetPayload(nil)
+	} else if err = resp.FetchPayload(maxBodySize); err != nil {
 		logger.Debugf("%s: failed to fetch response payload: %v", sp.name, err)
 		body.Close()
 		return err
